@@ -9,16 +9,51 @@ open ErgoVerif.Cron
 
 variable (civil : CivilFn)
 
-/-- states reachable from createCron by AddJob / RemoveJob / EnableJob / DisableJob calls and runs of the
-    timer function at arbitrary wall-clock minutes -/
-inductive Reach : Sched → Prop
-  | init (next : Int) : Reach (init next)
-  | step (s : Sched) (op : Op) : Reach s → op.isApi = true → Reach (step civil s op).1
+/-- the four calls of the public API -/
+def Op.isCall : Op → Bool
+  | .add _ _ _ | .remove _ | .enable _ | .disable _ => true
+  | _ => false
 
-theorem reach_inv {s : Sched} (h : Reach civil s) : Inv civil s := by
+/-- states reachable from createCron by AddJob / RemoveJob / EnableJob / DisableJob calls and runs of the timer
+    function at arbitrary wall-clock minutes — as one step, or as its two halves with calls in between.
+    The flag says whether the spool is armed: c.schedule has run since the spool was last drained. -/
+inductive Reach : Sched → Bool → Prop
+  | init (next : Int) : Reach (init next) true
+  | call (s : Sched) (a : Bool) (op : Op) : Reach s a → op.isCall = true → Reach (step civil s op).1 a
+  | tick (s : Sched) (a : Bool) (now : Int) : Reach s a → Reach (step civil s (.tick now)).1 true
+  | tickDrain (s : Sched) (a : Bool) (now : Int) : Reach s a → Reach (step civil s (.tickDrain now)).1 false
+  | tickSched (s : Sched) (a : Bool) (now : Int) : Reach s a → Reach (step civil s (.tickSched now)).1 true
+
+theorem reach_inv {s : Sched} {a : Bool} (h : Reach civil s a) : Inv civil s := by
   induction h with
   | init next => exact inv_init civil next
-  | step s op _ hop ih => exact inv_step civil s ih op hop
+  | call s a op _ _ ih => exact inv_step civil s ih op
+  | tick s a now _ ih => exact inv_step civil s ih _
+  | tickDrain s a now _ ih => exact inv_step civil s ih _
+  | tickSched s a now _ ih => exact inv_step civil s ih _
+
+theorem reach_armed {s : Sched} (h : Reach civil s true) : Armed civil s := by
+  generalize ha : true = a at h
+  induction h with
+  | init next => exact armed_init civil next
+  | call s a op hr hop ih =>
+    subst ha
+    have hi := reach_inv civil hr
+    cases op with
+    | add n t l => exact (inv_api civil s hi (.add n t l) trivial).2 (ih rfl)
+    | remove n => exact (inv_api civil s hi (.remove n) trivial).2 (ih rfl)
+    | enable n => exact (inv_api civil s hi (.enable n) trivial).2 (ih rfl)
+    | disable n => exact (inv_api civil s hi (.disable n) trivial).2 (ih rfl)
+    | tick n => simp [Op.isCall] at hop
+    | tickDrain n => simp [Op.isCall] at hop
+    | tickSched n => simp [Op.isCall] at hop
+    | sched n => simp [Op.isCall] at hop
+    | drain => simp [Op.isCall] at hop
+  | tick s a now hr _ =>
+    exact (inv_schedule civil _ (inv_drain civil s (reach_inv civil hr)) (now + 1)).2
+  | tickDrain s a now _ _ => cases ha
+  | tickSched s a now hr _ =>
+    exact (inv_schedule civil s (reach_inv civil hr) (now + 1)).2
 
 /-- every present job carries an AST of the grammar (AddJob refuses anything else) -/
 def SpecsValid (s : Sched) : Prop := ∀ p ∈ s.jobs, (s.objs p).spec.valid = true
@@ -31,6 +66,11 @@ theorem specsValid_step (s : Sched) (hv : SpecsValid s) (hlt : ∀ p ∈ s.jobs,
     obtain ⟨h1, _, h3, _, _⟩ := schedule_proj civil s n
     intro p hp; rw [h3] at hp; rw [h1]; exact hv p hp
   | drain => exact hv
+  | tickDrain now => exact hv
+  | tickSched now =>
+    simp only [step]
+    obtain ⟨h1, _, h3, _, _⟩ := schedule_proj civil s (now + 1)
+    intro p hp; rw [h3] at hp; rw [h1]; exact hv p hp
   | tick now =>
     simp only [step]
     obtain ⟨h1, _, h3, _, _⟩ := schedule_proj civil { s with spool := [] } (now + 1)
@@ -74,14 +114,17 @@ theorem specsValid_step (s : Sched) (hv : SpecsValid s) (hlt : ∀ p ∈ s.jobs,
           · simp at hp; subst hp
             simp only [if_true]; exact parseSpec_valid hpz
 
-theorem reach_specsValid {s : Sched} (h : Reach civil s) : SpecsValid s := by
+theorem reach_specsValid {s : Sched} {a : Bool} (h : Reach civil s a) : SpecsValid s := by
   induction h with
   | init next => intro p hp; simp [init] at hp
-  | step s op hr _ ih => exact specsValid_step civil s ih (reach_inv civil hr).jobs_lt op
+  | call s a op hr _ ih => exact specsValid_step civil s ih (reach_inv civil hr).jobs_lt op
+  | tick s a now hr ih => exact specsValid_step civil s ih (reach_inv civil hr).jobs_lt _
+  | tickDrain s a now hr ih => exact specsValid_step civil s ih (reach_inv civil hr).jobs_lt _
+  | tickSched s a now hr ih => exact specsValid_step civil s ih (reach_inv civil hr).jobs_lt _
 
 /-- on a present job of a reachable state the mask matcher is the denotation -/
-theorem runsAt_eq_denote {s : Sched} (h : Reach civil s) (hciv : ∀ loc m, (civil loc m).wf) (p : Nat) (hp : p ∈ s.jobs)
-    (m : Int) : runsAt civil (s.objs p) m = (s.objs p).spec.denote (civil (s.objs p).loc m) := by
+theorem runsAt_eq_denote {s : Sched} {a : Bool} (h : Reach civil s a) (hciv : ∀ loc m, (civil loc m).wf) (p : Nat)
+    (hp : p ∈ s.jobs) (m : Int) : runsAt civil (s.objs p) m = (s.objs p).spec.denote (civil (s.objs p).loc m) := by
   unfold runsAt
   exact specIsRunAt_eq_denote _ (reach_specsValid civil h p hp) _ (hciv _ _)
 
